@@ -1,6 +1,6 @@
 (** One case line in, one result line out: the same protocol as harness/src/main.rs. *)
-From Pakhi Require Import Base Float64 Syntax Lexer Parser Show.
-Open Scope N_scope.
+From Pakhi Require Import Base Float64 Syntax Lexer Parser Interp Show.
+Local Open Scope N_scope.
 
 Definition cmd_is (w : text) (s : list N) : bool := text_eqb w s.
 Definition bad : text := [98;97;100].
@@ -38,11 +38,70 @@ Definition do_parse (args : list text) : text :=
   | [] => bad
   end.
 
+(* ---- run ---- *)
+Definition linux : text := [108;105;110;117;120].
+
+(* every proper directory prefix of a path *)
+Definition parent_dirs (p : text) : list text := removelast (path_prefixes [] p).
+Definition world_of (files : list (text * text)) : world :=
+  let dirs := flat_map (fun f => parent_dirs (fst f)) files in
+  let fs0 := fold_left (fun acc d => alist_set d FsDir acc) dirs [] in
+  mkWorld (fold_left (fun acc f => alist_set (fst f) (FsFile (snd f)) acc) files fs0) [].
+
+Definition parse_sched (s : text) : option (list bool) :=
+  match s with
+  | [110] => None
+  | [101] => Some []
+  | bits => Some (map (fun c => c =? 49) bits)
+  end.
+
+Definition has_flag (flags : text) (c : N) : bool := existsb (N.eqb c) flags.
+
+Definition show_res {A} (r : outcome A) : text :=
+  match r with
+  | Ok _ => [111;107]
+  | Err e => show_err e
+  | Panic _ => [112;97;110;105;99]
+  | OutOfFuel => [115;116;101;112;108;105;109;105;116]
+  end.
+
+Definition bar : text := [32;124;32].
+
+Definition do_run (args : list text) : text :=
+  match args with
+  | budget :: sched :: flags :: rest =>
+    match parse_files rest with
+    | (main, src) :: more =>
+        let files := (main, src) :: more in
+        let fuel := match budget with [45] => N.to_nat 3000000 | _ => (3 * N.to_nat (parse_dec budget) + 1000)%nat end in
+        match front (fs_of files) default_cwd main (parse_fuel files) src with
+        | Ok code =>
+            let m0 := init_machine linux (world_of files) in
+            let '(r, m) := run code fuel (parse_sched sched) 0 m0 in
+            let out := match r with Err e => e_out e | _ => m_out m end in
+            show_out out ++ bar ++ [114;101;115;32] ++ show_res r ++
+            (if has_flag flags 104 then
+               bar ++ [104;101;97;112;32] ++ show_state (m_scopes m) (m_heap m) ++ [32;99;111;108;108;101;99;116;105;111;110;115;61] ++
+               (match parse_sched sched with
+                | None => [48;43] ++ show_nat (m_collections m)
+                | Some _ => show_nat (m_collections m) ++ [43;48]
+                end)
+             else []) ++
+            (if has_flag flags 102 then bar ++ [102;115;32] ++ join [sp] (map show_fsnode (w_fs (m_world m))) else [])
+        | other => show_out [] ++ bar ++ [114;101;115;32] ++ show_res other ++
+                   (if has_flag flags 102 then bar ++ [102;115;32] ++ join [sp] (map show_fsnode (w_fs (world_of files))) else [])
+        end
+    | [] => bad
+    end
+  | _ => bad
+  end.
+
 Definition run_case (line : text) : text :=
   match split_on 32 line with
   | cmd :: args =>
       if cmd_is cmd [108;101;120] then do_lex args
       else if cmd_is cmd [112;97;114;115;101] then do_parse args
+      else if cmd_is cmd [114;117;110] then do_run args
       else [98;97;100;45;99;111;109;109;97;110;100]
   | [] => bad
   end.
